@@ -22,7 +22,7 @@ theorem retry_armed (s : St) (g i n : Nat) (y : G) (x : Inst) (r : Rec)
   refine ⟨recordInst s g i x y.key, by simp [step, hy, hx, hst], ?_⟩
   unfold recordInst
   simp only [hk, hid, hg, hc, and_self, if_true, hcfg, hf, hbo]
-  exact ⟨_, by simp, rfl, rfl, rfl⟩
+  simp [Pending]
 
 /-- D6: `SetKey(k, start = false)` on an existing key does not touch its retry -/
 theorem pending_syncS_nostart (s : St) (k k' : Nat) (hp : Pending s k) : Pending (syncS false s k') k := by
@@ -31,7 +31,7 @@ theorem pending_syncS_nostart (s : St) (k k' : Nat) (hp : Pending s k) : Pending
     obtain ⟨r, hr, h1, h2, h3⟩ := hp
     unfold syncS syncOne
     simp only [hr]
-    exact ⟨_, by simp, h1, h2, h3⟩
+    exact ⟨{ r with deferRemove := none }, by simp, h1, h2, h3⟩
   · exact pending_of_key ((syncS_spec false s k').2.1 k hkk) hp
 
 theorem retry_kept_setKey_nostart (s : St) (k : Nat) (hp : Pending s k) : Pending (setKey s k false).1 k := by
@@ -86,6 +86,27 @@ theorem retry_kept_instStep (s s' : St) (g i : Nat) (f : G → Inst → Option I
   have := (instStep_abs s s' g i f h).2.1
   exact pending_of_key (by simp [St.key, this]) hp
 
+/-- a forced start appends a waiting instance to the record's generation and makes it current -/
+theorem start_force_spec (s : St) (k : Nat) (r : Rec) (y : G)
+    (hy : (cancelOpt s r.gen r.cancelOf).gens[r.gen]? = some y) :
+    ∃ r' y' x, (start s k r true).key k = some r' ∧ r'.exited = false ∧ r'.gen = r.gen ∧
+      r'.cur = some y.insts.length ∧ (start s k r true).gens[r.gen]? = some y' ∧
+      y'.insts[y.insts.length]? = some x ∧ x.st = .waiting ∧ x.cancelled = false := by
+  refine ⟨{ r with deferRetry := none, err := false, success := false, exited := false,
+                   cur := some y.insts.length, cancelOf := some y.insts.length },
+    { y with insts := y.insts ++ [{ rid := r.id, data := r.data, waitOn := y.last }], last := some y.insts.length },
+    { rid := r.id, data := r.data, waitOn := y.last }, ?_, rfl, rfl, rfl, ?_, by simp, rfl, rfl⟩
+  · simp [start, hy]
+  · simp [start, hy, gens_modG]
+
+theorem gens_cancelOpt_some (s : St) (g : Nat) (o : Option Nat) (y : G) (hy : s.gens[g]? = some y) :
+    ∃ y', (cancelOpt s g o).gens[g]? = some y' := by
+  cases o with
+  | none => exact ⟨y, hy⟩
+  | some j =>
+    exact ⟨{ y with insts := y.insts.modify j fun x => { x with cancelled := true } },
+      by simp [cancelOpt, modInst, gens_modG, hy]⟩
+
 /-- the timer fires after the epoch ends; with a context it starts a new instance -/
 theorem retry_fires (s : St) (k e : Nat) (r : Rec) (hK : KInv s) (hk : s.key k = some r)
     (hex : r.exited = true) (hd : r.deferRetry = some e) (he : e < s.epoch) (hctx : s.ctx.isSome = true) :
@@ -94,24 +115,14 @@ theorem retry_fires (s : St) (k e : Nat) (r : Rec) (hK : KInv s) (hk : s.key k =
       x.cancelled = false := by
   obtain ⟨c, hc⟩ := Option.isSome_iff_exists.1 hctx
   obtain ⟨y0, hy0, _⟩ := hK.genKey k r hk
-  have hy1 : (cancelOpt (setRec s k (some { r with deferRetry := none })) r.gen r.cancelOf).gens[r.gen]? =
-      some (match r.cancelOf with
-        | none => y0
-        | some j => { y0 with insts := y0.insts.modify j fun x => { x with cancelled := true } }) := by
-    cases r.cancelOf with
-    | none => simpa [cancelOpt] using hy0
-    | some j => simp [cancelOpt, modInst, gens_modG, hy0]
-  generalize hyy : (match r.cancelOf with
-        | none => y0
-        | some j => { y0 with insts := y0.insts.modify j fun x => { x with cancelled := true } }) = y1 at hy1
-  refine ⟨_, { r with deferRetry := none, err := false, success := false, exited := false,
-               cur := some y1.insts.length, cancelOf := some y1.insts.length },
-    y1.insts.length,
-    { y1 with insts := y1.insts ++ [{ rid := r.id, data := r.data, waitOn := y1.last }], last := some y1.insts.length },
-    { rid := r.id, data := r.data, waitOn := y1.last }, ?_, ?_, rfl, rfl, ?_, by simp, rfl, rfl⟩
-  · simp only [step, hk, dueOpt, hd, he, decide_true, if_true, hex]
-    rfl
-  · simp [startKey, hc, start, hy1]
-  · simp [startKey, hc, start, hy1, gens_modG]
+  have hy0' : (setRec s k (some { r with deferRetry := none })).gens[r.gen]? = some y0 := hy0
+  obtain ⟨y1, hy1⟩ := gens_cancelOpt_some _ r.gen r.cancelOf y0 hy0'
+  obtain ⟨r', y', x, h1, h2, h3, h4, h5, h6, h7, h8⟩ :=
+    start_force_spec (setRec s k (some { r with deferRetry := none })) k { r with deferRetry := none } y1 hy1
+  refine ⟨start (setRec s k (some { r with deferRetry := none })) k { r with deferRetry := none } true,
+    r', y1.insts.length, y', x, ?_, h1, h2, h4, ?_, h6, h7, h8⟩
+  · have hc' : (setRec s k (some { r with deferRetry := none })).ctx = some c := hc
+    simp [step, hk, dueOpt, hd, he, hex, startKey, hc']
+  · rw [h3]; exact h5
 
 end UtilModel.Keyed
